@@ -31,7 +31,16 @@ def seeded():
         det = d.get('detection', {})
         rows.append("| %s | %s | %s | %s | %s |\n" % (d['id'], d['summary'][:150].replace('|', '\\|'), d['needs'][:140].replace('|', '\\|'),
                     det.get('caught_by', '—'), det.get('note', '').replace('|', '\\|')))
-    head = ["### 8.4 Seeded property-breaking changes and which check catches which\n\n",
+    metas = [json.load(open(m)) for m in sorted(glob.glob(os.path.join(ROOT, 'seeded', '*', 'meta.json')))]
+    tot = len(metas)
+    own = sum(1 for d in metas if d['detection'].get('caught_by', '').split(',')[0].strip() == d['property'])
+    notc = sum(1 for d in metas if d['detection'].get('caught_by', '').startswith('not caught') or d['detection'].get('caught_by') == 'MISSED')
+    stren = sum(1 for d in metas if 'strengthened' in d['detection'].get('note', ''))
+    stats = ("The changes were collected in rounds of three per property (ids -1..-3: first round; -4..-6: second round, sub-agents told to avoid the obvious "
+             "places; -7..-9: third round, sub-agents told to look for interactions). Of the %d confirmed changes %d are caught by the check of their own property, "
+             "%d by the check of another property (where the defect belongs, e.g. reuse defects by C07), %d are not caught (reason in the note); %d were missed on the "
+             "first run and led to a general extension of a check.\n\n" % (tot, own, tot - own - notc, notc, stren))
+    head = ["### 8.4 Seeded property-breaking changes and which check catches which\n\n", stats,
             "Each change was written by a fresh sub-agent that saw only the property text and a scratch worktree, never `/verif`. Each was\nconfirmed independently (`tools/seedverify.sh`: the 854 tests pass with it, its demonstration fails with it and passes without) and\nthen run against the checks (`tools/seedtest.sh`, quick tier, on a scratch worktree; `/repo` untouched). `seeded/<id>/` holds\n`patch.diff`, the demonstration and `meta.json`. \"strengthened\" means the first run missed it and the check was extended (what\nwas added is in the note); the extension is general (a new family / alphabet / audit), never a special case for the seed.\n\n",
             "| seed | change | needs | caught by (quick) | note |\n|---|---|---|---|---|\n"]
     return ''.join(head + rows)
